@@ -51,6 +51,8 @@ void abtv_stall_within(int maxhooks, int steps);
 
 /* hold back (for `steps` steps, with probability permille/1000) any other actor that is about to load *addr */
 void abtv_watch_load(const void *addr, int steps, int permille);
+int abtv_watch_hits(void);
+void abtv_watch_load_after(const void *addr, int within, int steps, int permille);
 
 /* a scheduling point requested by the driver (e.g. inside work-unit bodies) */
 void abtv_point(void);
